@@ -554,6 +554,13 @@ func (v *PolicyVerifier) VerifyRelativeForRef(ctx context.Context, firstEntry, l
 						slog.Debug("Setting current policy...")
 					}
 
+					// The new policy's rule files must be signed as its own
+					// root and delegations require, exactly as LoadState checks
+					// for the policy it returns
+					if err := newPolicy.Verify(ctx); err != nil {
+						return fmt.Errorf("policy state has invalidly signed metadata: %w", err)
+					}
+
 					currentPolicy = newPolicy
 
 					if v.persistentCacheEnabled {
